@@ -17,7 +17,7 @@ Trace == ndJsonDeserialize(TraceFile)
 VARIABLES l, fails
 vars == <<l, fails>>
 
-PriorIsFile(sc) == sc.prior \in {"own", "ownnoop", "ownlong", "older", "garbage"}
+PriorIsFile(sc) == sc.prior \in {"own", "ownnoop", "ownlong", "ownstub", "owncase", "older", "garbage", "empty"}
 
 (* C17 *)
 FailureWritesNothing(r) == LET o == r.obs sc == r.sc IN
@@ -55,16 +55,20 @@ C19(r) == LET o == r.obs IN
 C15(r) == LET o == r.obs sc == r.sc IN
     /\ (sc.prior = "own" /\ ~sc.rm /\ sc.out = "file" /\ o.exit = 0) => o.outSame           \* own output is a fixed point
     /\ o.secondRan => o.secondSame     \* whatever was there before: what moq just wrote, left in place, is reproduced by the same command
-    /\ (sc.rm /\ sc.out = "file" /\ PriorIsFile(sc) /\ sc.fault = "none" /\ sc.args \in {"ok", "ok2"})
+    /\ (sc.rm /\ sc.out \in {"file", "otherpkg"} /\ PriorIsFile(sc) /\ sc.fault = "none" /\ sc.args \in {"ok", "ok2", "okalias"})
           => (o.exit = 0 /\ o.outEqualsRef /\ (o.straceOK => o.unlinkBeforeLoad))            \* -rm: prior content irrelevant
 
 (* C16 at the command line: whatever layout the previous file had, a run    *)
 (* with the default formatter leaves exactly the canonical output            *)
 C16(r) == (r.sc.prior = "ownnoop" /\ r.sc.out = "file" /\ r.obs.exit = 0) => r.obs.outEqualsRef
 
+(* C07 at the command line: -stub (or its absence) is honoured whatever an    *)
+(* earlier run with the other setting left at -out                           *)
+C07(r) == (r.sc.prior = "ownstub" /\ r.sc.out # "stdout" /\ r.obs.exit = 0) => r.obs.outEqualsRef
+
 (* C14 at the command line: the same command gives the same bytes whatever   *)
 (* an earlier generation left at -out                                        *)
-C14(r) == (r.sc.prior \in {"own", "ownnoop", "ownlong"} /\ r.sc.out = "file" /\ r.obs.exit = 0) => r.obs.outEqualsRef
+C14(r) == (r.sc.prior \in {"own", "ownnoop", "ownlong", "ownstub", "owncase"} /\ r.sc.out # "stdout" /\ r.obs.exit = 0) => r.obs.outEqualsRef
 
 (* conformance with the prediction of spec/Cli.tla *)
 Conforms(r) == LET o == r.obs p == r.pred IN
@@ -73,7 +77,7 @@ Conforms(r) == LET o == r.obs p == r.pred IN
     /\ (p.srcOnStdout = "full") <=> (o.exit = 0 /\ r.sc.out = "stdout")
 
 Check(name, ok) == IF ok THEN {} ELSE {name}
-Verdict(r) == Check("C14", C14(r)) \cup Check("C15", C15(r)) \cup Check("C16", C16(r)) \cup Check("C17", C17(r)) \cup Check("C18", C18(r)) \cup Check("C19", C19(r))
+Verdict(r) == Check("C07", C07(r)) \cup Check("C14", C14(r)) \cup Check("C15", C15(r)) \cup Check("C16", C16(r)) \cup Check("C17", C17(r)) \cup Check("C18", C18(r)) \cup Check("C19", C19(r))
               \cup Check("drift", Conforms(r))
 
 Init == l = 1 /\ fails = {}
